@@ -462,3 +462,46 @@ func VC_C07_overwritten_between() {
 	}
 	verifReached("C07.overwritten")
 }
+
+// an interface variable of an unnamed interface type with an unexported method
+var vSvcAnon interface {
+	Alpha(x int) int
+	gamma(x int) int
+}
+
+// VC_C07_anonymous_interface: mocking the unexported (or the exported) method of a
+// variable whose interface type has no name: the mocked method's own slot gets the stub,
+// the other one stays notImplement.
+func VC_C07_anonymous_interface() {
+	vEnv()
+	stub.VerifResetMmap()
+	vSvcAnon = nil
+	t := reflect.TypeOf(&vSvcAnon).Elem()
+	names := [2]string{"Alpha", "gamma"}
+	cbs := [2]interface{}{vCbAlpha, vCbGamma}
+	add := [2]int{1, 3}
+	k := verifChoice("method", 2)
+	b := Create()
+	b.Interface(&vSvcAnon).Method(names[k]).Apply(cbs[k])
+	verifAssert(vSvcAnon != nil, "C07.anonymous.variable-non-nil")
+	if vSvcAnon == nil {
+		return
+	}
+	x := verifInt("x")
+	for m := 0; m < 2; m++ {
+		f, recv, notImpl := vDispatch(unsafe.Pointer(&vSvcAnon), vSlotOf(t, names[m]), "C07.anonymous")
+		if m != k {
+			verifAssert(notImpl, "C07.anonymous.unmocked-slot-is-notImplement")
+			continue
+		}
+		verifAssert(!notImpl && f != nil, "C07.anonymous.mocked-slot-has-stub")
+		if notImpl || f == nil {
+			continue
+		}
+		got, p := vCall07(f, recv, x)
+		verifAssert(!p && got == x+add[m], "C07.anonymous.own-replacement-with-callers-argument")
+	}
+	b.Reset()
+	verifAssert(vSvcAnon == nil, "C07.anonymous.reset-restores-previous-value")
+	verifReached("C07.anonymous")
+}
